@@ -126,6 +126,15 @@ fn make_case(arg_lists: &[Vec<usize>], iface_oneway: bool, method_oneway_mask: u
         let mname = if const_at.is_some() && const_at != Some(0) { "same".to_string() } else { format!("m{i}") };
         let mut m = Method::new(Ty::void(), &mname, args);
         m.oneway = (method_oneway_mask >> (i % 16)) & 1 == 1;
+        // data values: in the "constant first" variant every method carries a large explicit
+        // transact code (around 2^24, 2^31 and 2^32 - all legal u32 values, all distinct)
+        if const_at == Some(0) {
+            m.code = Some(match i % 3 {
+                0 => format!("{}", 16777215u64 + i as u64),
+                1 => format!("{}", 4294967295u64 - i as u64),
+                _ => format!("{}", 2147483648u64 + i as u64),
+            });
+        }
         item.members.push(Member::Method(m));
     }
     let mut files = support();
